@@ -347,6 +347,20 @@ def math_noninteger_instance(case: dict, failure: dict) -> bool:
     return False
 
 
+HARDWIRED_VARS = re.compile(r"^(__NEXT|__PREV|__VAR.*|__AUX_[0-9]+)$")
+
+
+def variant_uses_hardwired_variable(case: dict, failure: dict) -> bool:
+    """F-hardwired: a C07 renaming variant whose source uses a variable name that ngo inserts verbatim into rewritten rules"""
+    if not str(failure.get("kind", "")).startswith("rename:"):
+        return False
+    for stm in _prg(failure.get("variant_src") or ""):
+        for name in astutil.variables_in(stm):
+            if HARDWIRED_VARS.match(name):
+                return True
+    return False
+
+
 def out_only_aux_collision(case: dict, failure: dict) -> bool:
     """F-outdecl (semantic face): OUT declares a predicate that does not occur in the source and the result defines exactly that predicate"""
     if case.get("OUT") in (None, "auto"):
@@ -410,6 +424,7 @@ TRIGGERS: dict[str, Callable[[dict, dict], bool]] = {
     "math_symbolic_constant": math_symbolic_constant,
     "domain_rule_antimonotone": domain_rule_antimonotone,
     "math_sumplus_negative_weight": math_sumplus_negative_weight,
+    "variant_uses_hardwired_variable": variant_uses_hardwired_variable,
     "math_uses_minmax_result": math_uses_minmax_result,
     "math_noninteger_instance": math_noninteger_instance,
     "input_also_defined_domain": input_also_defined_domain,
